@@ -533,7 +533,7 @@ fn gen_life(rng: &mut Rng, count: usize, out: &mut Vec<String>) {
 
 /// Many streams on one name: all are accepted, all report, all end.
 fn gen_many_watchers(rng: &mut Rng, thorough: bool, out: &mut Vec<String>) {
-    let sizes: &[usize] = if thorough { &[9, 17, 33, 65, 130, 260, 1030] } else { &[17, 33, 65, 130] };
+    let sizes: &[usize] = if thorough { &[9, 17, 33, 65, 130, 260, 1030] } else { &[17, 33, 65, 130, 260, 520] };
     for &n in sizes {
         let name = if rng.chance(1, 2) { "a".to_string() } else { "".to_string() };
         let mut ops = vec![Op::Set(0, name.clone(), rng.below(3) as u8)];
